@@ -191,3 +191,7 @@ F('idna_punycode_to_utf32', 'ada::idna::punycode_to_utf32')
 F('idna_verify_punycode', 'ada::idna::verify_punycode')
 F('idna_append_ascii_label', 'ada::idna::append_ascii_label')
 F('idna_is_ace_prefix', 'ada::idna::is_ace_prefix')
+
+# ---- URLPattern canonicalisers (self-contained ones)
+for _c in ['canonicalize_protocol', 'canonicalize_username', 'canonicalize_password', 'canonicalize_search', 'canonicalize_hash', 'canonicalize_port', 'canonicalize_hostname', 'canonicalize_pathname', 'canonicalize_opaque_pathname', 'canonicalize_ipv6_hostname']:
+    F(_c, 'ada::url_pattern_helpers::' + _c)
